@@ -46,6 +46,9 @@ KeyKnown(m) == (m[1] = 0 /\ m[2] \in 1..NM /\ m[3] = 0 /\ m[4] = 0)
                \/ (m[1] \in 1..NC /\ <<m[2], m[3], m[4]>> \in FormVecs(Cores[m[1]], Pairs) /\ Applicable(m))
 InUniverse(m, p) == KeyKnown(m) /\ p \in SlicePaths(m)
 CountOver(S) == FoldSet(LAMBDA m, acc : acc + Cardinality(SlicePaths(m)), 0, S)
+\* the same count for a set of sharing keys, with the path set built once
+ShareCount(S) == LET sp == SPaths IN
+  FoldSet(LAMBDA m, acc : acc + Cardinality({p \in SChainsP(m, Seed, SMod, sp) : NSlice = 1 \/ SliceOf(m, p) = Slice}), 0, S)
 
 \* ---- spec-level sanity of the universe (a failing ASSUME is a wrong specification: tool error)
 ASSUME KindsDistinct
@@ -62,12 +65,13 @@ ASSUME (Mode = "emit" /\ Slice = 0 /\ Only = "all") => CellsInhabited(CaseIds(D)
 ASSUME (Mode = "emit" /\ Slice = 0 /\ Only = "all") => ProgramsDiffer(CaseIds(D))
 ASSUME (Mode = "emit" /\ Slice = 0 /\ Only = "all") => CellsMet(Pairs) /\ KeysPlaced(Keys, Full, Seed, Mod)
 ASSUME Mode = "emit" => PrintT(<<"PRELUDE", ToJson(Prelude)>>)
-ASSUME Mode = "emit" => PrintT(<<"UNIVERSE", ToJson([table_cases |-> CountOver(TableKeys), arrival_cases |-> CountOver(Keys),
+ASSUME Mode = "emit" => LET sk == ShKeys IN
+                         PrintT(<<"UNIVERSE", ToJson([table_cases |-> CountOver(TableKeys), arrival_cases |-> CountOver(Keys),
                                                       ops_cases |-> CountOver(OpKeys), ops_keys |-> Cardinality(OpKeys),
-                                                      share_cases |-> CountOver(ShKeys), share_keys |-> Cardinality(ShKeys),
-                                                      share_sizes |-> <<Cardinality(LKeys), Cardinality(VKeys), Cardinality(XKeys(Seed, XMod))>>,
+                                                      share_cases |-> ShareCount(sk), share_keys |-> Cardinality(sk),
+                                                      share_sizes |-> <<Cardinality(LKeys), Cardinality(VKeys), Cardinality({m \in sk : m[1] = SX})>>,
                                                       op_pairs |-> <<Len(BinPairs), Len(CompPairs), Len(DiffPairs)>>,
-                                                      keys |-> Cardinality(AllKeys), kinds |-> NM, depth |-> D,
+                                                      keys |-> Cardinality(TableKeys) + Cardinality(Keys) + Cardinality(OpKeys) + Cardinality(sk), kinds |-> NM, depth |-> D,
                                                       contexts |-> Cardinality(Contexts), cores |-> NC, forms |-> NF,
                                                       derived |-> Cardinality(Keys), nslice |-> NSlice, slice |-> Slice,
                                                       form_names |-> [i \in 1..NF |-> FName(Forms[i])],
@@ -78,7 +82,7 @@ KindOf(m) == IF m[1] = 0 THEN MM[m[2]].kind ELSE IF m[1] > NC + 3 THEN SKind(m) 
 
 Init == /\ pc = "start"
         /\ IF Mode = "emit" THEN k \in {<<m, <<>>>> : m \in AllKeys}
-           ELSE /\ Assert(Complete => Cardinality({<<Rec[j].id.m, Rec[j].id.path>> : j \in 1..Len(Rec)}) = CountOver(AllKeys),
+           ELSE /\ Assert(Complete => Cardinality({<<Rec[j].id.m, Rec[j].id.path>> : j \in 1..Len(Rec)}) = CountOver(TableKeys \cup Keys \cup OpKeys) + ShareCount(ShKeys),
                           "the records do not cover the specification's universe")
                 /\ k \in 1..Len(Rec)
 
